@@ -25,7 +25,7 @@ def one(args):
     from pwsa.report import unlisted_findings
     hits = unlisted_findings(rep)
     return prop, 'ok', [f.text()[:400] for f in hits] + \
-        ['ANALYSIS-ERROR ' + m[:300] for m in rep.analysis_errors]
+        ['ANALYSIS-ERROR ' + m[:300] for m in list(rep.analysis_errors) + rep.floor_errors()]
 
 
 def main():
